@@ -18,6 +18,7 @@ SIGS = {
                                            ('out', 'ocnt', 4, 8), ('out', 'odata', MAXD, 8), ('out', 'ocoords', MAXV, 8), ('out', 'opcnt', 4, 8), ('out', 'opdata', MAXP, 8), ('out', 'optrg', MAXP, 8)]),
     'w_permute': sig('w_permute', [('i32', 'shape'), ('i32', 'eager'), ('in', 'cnt', 8), ('in', 'data', 8), ('in', 'pcnt', 8), ('i32', 'ptopo'), ('in', 'pdata', 8), ('in', 'ptrg', 8), ('in', 'use', 8), ('in', 'perms', 8),
                                    ('out', 'odata', MAXP, 8), ('out', 'ocoords', MAXV, 8), ('out', 'optrg', MAXP, 8)]),
+    'w_boundary': sig('w_boundary', [('i32', 'shape'), ('i32', 'eager'), ('in', 'cnt', 8), ('in', 'data', 8), ('out', 'obc', 4, 8), ('out', 'obt', MAXP, 8), ('out', 'ofc', 4, 8), ('out', 'orc', 4, 8), ('out', 'ort', 2 * MAXP, 8), ('out', 'ofbc', 4, 8), ('out', 'ofbt', 2 * MAXP, 8)]),
 }
 M64 = (1 << 64) - 1
 
@@ -566,6 +567,80 @@ def permute_jobs(tab, quick):
     return jobs
 
 
+def boundary_oracle(topo, symvars):
+    kind, D = topo.kind, topo.D
+
+    def oracle(get, rv, st, ex):
+        props = []
+        for mdl in all_models(ex, st, symvars):
+            tagp = z3.Not(z3.And(*[x == mdl.eval(x, model_completion=True) for x in symvars])) if (mdl is not None and symvars) else False
+            cv = (lambda x: cval(x, mdl)) if mdl is not None else (lambda x: x)
+            # definition: boundary facets = facets with exactly one adjacent cell; boundary = their closure
+            adj = {}
+            for row in topo.idx[(D, D - 1)]:
+                for f in row:
+                    adj[f] = adj.get(f, 0) + 1
+            bf = sorted(f for f in range(topo.cnt[D - 1]) if adj.get(f, 0) == 1)
+            want = {D - 1: bf}
+            for d in range(D - 1):
+                want[d] = sorted(set(x for f in bf for x in (topo.idx[(D - 1, d)][f] if d > 0 else topo.idx[(D - 1, 0)][f])))
+            bc = [cv(get('obc', d)) for d in range(D + 1)]
+            P = [('boundary part has no cells', bc[D] == 0)]
+            okc = bc[:D] == [len(want[d]) for d in range(D)]
+            P.append(('boundary part sizes == closure of the facets with exactly one adjacent cell', okc))
+            if okc:
+                p = 0; okt = True
+                for d in range(D):
+                    t = [cv(get('obt', p + k)) for k in range(bc[d])]; p += bc[d]
+                    okt = okt and sorted(t) == want[d] and len(set(t)) == len(t)
+                P.append(('boundary part entities == closure of the facets with exactly one adjacent cell', okt))
+            # refined boundary part == boundary of the refined mesh (as sets, every dimension)
+            rc = [cv(get('orc', d)) for d in range(D + 1)]; fb = [cv(get('ofbc', d)) for d in range(D + 1)]
+            oks = rc == fb and all(x <= 2 * MAXP for x in rc) and sum(rc) <= 2 * MAXP
+            if oks:
+                p = 0
+                for d in range(D + 1):
+                    a = sorted(cv(get('ort', p + k)) for k in range(rc[d])); b = sorted(cv(get('ofbt', p + k)) for k in range(fb[d])); p += rc[d]
+                    oks = oks and a == b and len(set(a)) == len(a)
+            P.append(('boundary part refined alongside the mesh == boundary computed on the refined mesh (every dimension)', oks))
+            for (lab, ok) in P:
+                props.append((lab, True if ok else tagp))
+        merged = {}
+        for lab, pr in props:
+            merged.setdefault(lab, []).append(pr)
+        out = []
+        for lab, prs in merged.items():
+            bad = [q for q in prs if q is not True]
+            out.append((lab, True if not bad else (bad[0] if len(bad) == 1 else z3.And(*[q if irsym.is_sym(q) else z3.BoolVal(bool(q)) for q in bad]))))
+        return out
+    return oracle
+
+
+def boundary_jobs(tab, quick):
+    jobs = []
+    ms = list(base_meshes(tab, quick))
+    # a few meshes with interior facets / vertex-only contacts
+    ms.append(('2x2 quadrilaterals', Topo(0, [[0, 1, 3, 4], [1, 2, 4, 5], [3, 4, 6, 7], [4, 5, 7, 8]], 9, tab)))
+    ms.append(('two quadrilaterals touching in one vertex', Topo(0, [[0, 1, 2, 3], [3, 4, 5, 6]], 7, tab)))
+    ms.append(('four triangles around a vertex', Topo(1, [[0, 1, 4], [1, 2, 4], [2, 3, 4], [3, 0, 4]], 5, tab)))
+    ms.append(('three tetrahedra with a vertex-only contact', Topo(3, [[0, 1, 2, 3], [1, 2, 3, 4], [3, 4, 5, 6]], 7, tab)))
+    for (mname, topo) in ms:
+        D = topo.D
+        frees = [[], [(D, topo.cnt[D] - 1)]]
+        if topo.cnt[D - 1] > 0:
+            frees.append([(D - 1, 0)])
+            frees.append([(D - 1, topo.cnt[D - 1] - 1)])
+        for fr in frees:
+            if quick and topo.name == 'hexa' and topo.cnt[D] > 1 and fr and fr[0][0] == D:
+                continue
+            flat, cons = symbolic_inputs(topo, fr)
+            symvars = [x for x in flat if irsym.is_sym(x)]
+            inp = {'shape': topo.shape, 'eager': 1, 'cnt': topo.cnt + [0] * (4 - len(topo.cnt)), 'data': flat, 'obc': 4, 'obt': MAXP, 'ofc': 4, 'orc': 4, 'ort': 2 * MAXP, 'ofbc': 4, 'ofbt': 2 * MAXP}
+            nm = 'boundary of %s, free: %s' % (mname, ', '.join('%d-entity %d' % e for e in fr) if fr else 'none (reference numbering)')
+            jobs.append((nm, 'w_boundary', inp, cons, boundary_oracle(topo, symvars), {'max_paths': 4000}))
+    return jobs
+
+
 def main():
     chk = C.Check('C10', level='model_checking')
     quick = chk.tier == 'quick'
@@ -575,7 +650,7 @@ def main():
     native = e3.Native('c10', wrapper, REPO_SRCS, bdir, list(SIGS.values()))
     chk.extra['ir'] = info
     tab = Tables(native)
-    jobs = idxrep_jobs() + congruency_jobs(tab) + refine_jobs(tab, quick) + part_jobs(tab, quick) + permute_jobs(tab, quick)
+    jobs = idxrep_jobs() + congruency_jobs(tab) + refine_jobs(tab, quick) + part_jobs(tab, quick) + permute_jobs(tab, quick) + boundary_jobs(tab, quick)
     only = os.environ.get('C10_ONLY')
     if only:
         jobs = [j for j in jobs if only in j[0]]
